@@ -34,7 +34,7 @@ func (c02) Plan(tier string) wk.Plan {
 		n = 3_000_000
 	}
 	return wk.Plan{
-		Level: "exploration", Cases: n, Chunk: 500, Configs: single("seq", 16), CaseBudget: 20,
+		Level: "exploration", Cases: n, Chunk: 500, Configs: single("seq", 16), CaseBudget: 8,
 		Rule:          "case = one generated program, constant-rich (G-prog with few argument leaves; chains c1 op x op c2 for every operator; constant closures/lists/maps; if/switch on constants; short-circuit &,| with failing or impure right operands) for one of three instantiations (value language 70%, float generator 15%, bool generator 15%), generated twice: default optimizer and SetOptimizer(nil). Refuting events: outcomes differ (floats within 1e-12 only if the program multiplies float constants), a counted impure host function runs during Generate, per-function impure call counts of an Eval differ between the two builds, an impure function in an untaken branch runs. Non-trivial = the optimizer changed the AST (printed ASTs differ) and the program depends on an argument or an impure call; distinct by source.",
 		Floor:         200,
 		FloorCounters: map[string]int64{"impure_calls_observed": 100},
